@@ -164,7 +164,8 @@ def work_check_binary(bins, strings):
     bits, disp = _probe_bulk(pr, strings)
     bad = []
     for i, s in enumerate(strings):
-        r = core.run_zerv(bins, ["check", "--format", "pep440", "--", s])
+        # the verdict is a function of the string: something valid waiting on stdin (every other run) must not matter
+        r = core.run_zerv(bins, ["check", "--format", "pep440", "--", s], stdin="1.0rc1\n" if i % 2 else None)
         if r["timeout"]:
             continue
         ok = r["exit"] == 0
@@ -286,7 +287,7 @@ def run(ctx):
         ctx.evaluations += r["n"]
         ctx.count("check_cli_runs", r["n"])
         total["bad"] += r["bad"]
-    bsample = rng.sample(sample, 400 if quick else 12000)
+    bsample = ["-", "--", "-.-", "@-", "v", "1.2.3", "1.0", "stdin", "/dev/stdin"] + rng.sample(sample, 400 if quick else 12000)      # `-` means "read stdin" to many tools
     res4 = core.pmap(work_check_binary, [(ctx.bins, l) for l in core.split_even(bsample, 16)])
     for r in res4:
         ctx.evaluations += r["n"]
